@@ -318,6 +318,12 @@ def session_only(pid, session, tier, seed, out):
         resource.setrlimit(resource.RLIMIT_AS, (lim, lim))
     except Exception:
         pass
+    try:
+        # ... and with numpy printing arrays in a way of the user's choosing: how an array PRINTS must not matter to what is written
+        import numpy as np
+        np.set_printoptions(precision=1, threshold=3, edgeitems=1, suppress=True, linewidth=40)
+    except Exception:
+        pass
     ctx = Ctx(pid, tier, seed)
     guarded_run(session, ctx)
     pathlib.Path(out).write_text(json.dumps(jsonable(dict(fails=ctx.fails[:10], diffs=ctx.diffs[:10], evaluations=ctx.evaluations,
